@@ -111,6 +111,13 @@ CLAIMS["C03"] = ("proof", "Lean 4 theorems over a lifecycle EVENT model of the w
                  "counts diffed with the model, callbacks diffed with the spec, LeakSanitizer at teardown.",
                  WORLD_NOTE + "; run_events_accepted assumes the contract/invariant StepOk at every visited state (not re-derived through the flush); events "
                  "are listed as if every type had all lifecycle functions, the implementation comparison covers the instrumented types B and G")
+CLAIMS["C18"] = ("proof", "Lean 4 theorems: every C entry point IS a composition of world-model operations; lifecycle-function subsets irrelevant for values + three-way correspondence",
+                 "translate_ok / capi_refines_cxx (for every C-API sequence the model state, outputs and callback log equal those of the C++ call sequence it "
+                 "names, for every registry and start state), flags_irrelevant_for_values (copy/move/move_constructor/destroy are not read at all; create and "
+                 "default value matter only through the default-construction token), callbacks_never_influence_values, capi_queries_invalid_handle; the same "
+                 "op file is executed through the C API (capi_driver, its own translation unit), through the C++ API (world_driver variant) and on the Lean "
+                 "model, for all 32 subsets of the function table x default value on/off; entity digests and job callback logs are diffed three ways.",
+                 WORLD_NOTE + "; the plain-data refinement (instance with defaults vs without) is covered by the tie with wildcards, not proved")
 CLAIMS["C07"] = ("proof", "Lean 4 invariant proof over a model of version stamps / job filters + correspondence on generated histories",
                  "no_missed_write and no_missed_write_history (a pending write / dirty mark / arrival / relocation / other job's write of a checked component "
                  "of an entity in a matching archetype is processed by the next run of the job, wherever update() and other jobs' runs fall in between), "
